@@ -154,7 +154,8 @@ def do_check(mod, pid, tier, seed, budget, dump_failures=None):
         v = vs[0]
         path = write_replay(pid, v)
         ok = [True]
-        if hasattr(mod, 'replay') and printed < 3 and not os.environ.get('JV_NO_CONFIRM'):
+        if hasattr(mod, 'replay') and printed < 3 and not os.environ.get('JV_NO_CONFIRM') \
+                and not (isinstance(v.get('case'), dict) and v['case'].get('no_confirm')):
             try:
                 ok = confirm_replay(pid, path)
             except Exception:
